@@ -378,7 +378,7 @@ H("C09", "gearsets", "c09_optional_ids", bounds="all u32", encodes=["gearsets::c
 H("C09", "gearsets", "c09_gear_slot_layout", unwind=10, timeout=300, bounds="all item ids (disjoint from the marker), glamour ids, five unknown words", encodes=["gearsets::GearSlot (BinRead/BinWrite)"])
 H("C09", "gearsets", "c09_dat_header_layout", unwind=10, timeout=300, bounds="all sizes", encodes=["dat::DatHeader (BinRead/BinWrite)"])
 H("C09", "gearsets", "c09_slot_type_tables", unwind=4, bounds="all usize", encodes=["gearsets::GearSlotType::try_from", "gearsets::GearSlotType::to_slot"])
-H("C09", "gearsets", "c09_gearset_table_positions", tier="thorough", unwind=104, timeout=900, bounds="100-entry list with positions 0, 57, 99 occupied (symbolic index bytes)", encodes=["gearsets::convert_to_gearsets"],
+H("C09", "gearsets", "c09_gearset_table_positions", tier="thorough", unwind=104, timeout=1800, cbmc_args=["--max-field-sensitivity-array-size", "16384"], bounds="100-entry list with positions 0, 57, 99 occupied (symbolic index bytes)", encodes=["gearsets::convert_to_gearsets"],
   stubs=["std::hash::RandomState::new -> fixed keys"])
 H("C09", "gearsets", "c09g_pipeline_witness", expect="witness-fail", bounds="assert(false) twin")
 
@@ -395,7 +395,7 @@ H("C10", "fiin", "c10_pipeline_witness", expect="witness-fail", unwind=70, bound
 # C16 — auxiliary decoders
 # ================================================================================================
 H("C16", "pbd", "c16_deform_chain_walk", unwind=20, timeout=300, bounds="4-node tree with link table permuted against the item table; 5 concrete queries; all matrix values (symbolic)",
-  encodes=["pbd::PreBoneDeformer::get_deform_matrices"], cbmc_args=FS1K)
+  encodes=["pbd::PreBoneDeformer::get_deform_matrices"], cbmc_args=FS1K, unwind_is_violation="get_deform_matrices")
 H("C16", "pbd", "c16p_pipeline_witness", expect="witness-fail", unwind=8, bounds="assert(false) twin", cbmc_args=FS1K)
 H("C16", "cmp", "c16_scaling_row_exact", unwind=6, timeout=300, bounds="all 56-byte rows", encodes=["cmp::RacialScalingParameters (binrw)"])
 H("C16", "cmp", "c16c_pipeline_witness", expect="witness-fail", unwind=6, bounds="assert(false) twin")
@@ -499,3 +499,10 @@ for n in ("add", "delete"):
     H("C03", "patch", "c03_sqpk_file_operation_" + n, tier="thorough", unwind=12, timeout=1800, bounds="file operation '" + n + "', path length 8 (concrete path), all offsets / sizes / expansion ids symbolic", encodes=["patch::SqpkFileOperationData (binrw)", "common_file_operations::read_string"])
 H("C03", "patch", "c03_chunk_framing_eof_and_apply", tier="thorough", unwind=12, timeout=1800, bounds="EOF_ chunk (no CRC) and APLY chunk (CRC): all size / value / CRC bytes", encodes=["patch::PatchChunk (binrw)", "patch::ChunkType"])
 H("C03", "patch", "c03p_pipeline_witness", expect="witness-fail", unwind=10, bounds="assert(false) twin")
+
+# attempts at the remaining gaps (thorough tier, time-boxed; see DESIGN.md section 8)
+H("C14", "mtrl", "c14_dye_table_kind_dispatch", tier="thorough", unwind=40, timeout=1800, bounds="dye table kind for table_dimension_logs in {0x00, 0x50, 0x5F, 0x42}: Dawntrail kind = 32 rows / 128 bytes, legacy = 16 rows / 32 bytes, other = opaque / 0 bytes; all table bytes symbolic",
+  encodes=["mtrl::parse_color_dye_table"], cbmc_args=FS256)
+H("C15", "repository", "c15_filenames_noloop_concrete", tier="thorough", unwind=4, timeout=1200, kani_args=["--no-assertion-reach-checks"],
+  bounds="0a/ex1/chunk2/ps3/dat3 (concrete) with unwind 4 and loop-free comparisons", encodes=["repository::Repository::index_filename", "repository::Repository::dat_filename", "alloc::fmt::format (real)"],
+  no_cover="fully concrete harness without assumptions")
